@@ -1,0 +1,33 @@
+//go:build verif
+
+package sample
+
+import (
+	dynsampler "github.com/honeycombio/dynsampler-go"
+
+	"github.com/honeycombio/refinery/types"
+)
+
+// Export-only wrappers for the verification harness (property C11). No behaviour.
+
+// VerifC11MaxKeyLength exposes the maxKeyLength constant.
+const VerifC11MaxKeyLength = maxKeyLength
+
+// VerifC11TraceKey wraps the unexported traceKey.
+type VerifC11TraceKey struct{ k *traceKey }
+
+func VerifC11NewTraceKey(fields []string, useTraceLength bool) *VerifC11TraceKey {
+	return &VerifC11TraceKey{k: newTraceKey(fields, useTraceLength)}
+}
+
+func (v *VerifC11TraceKey) Build(trace *types.Trace) (string, int) { return v.k.build(trace) }
+
+// Fields returns the non-root and root-only field lists computed by newTraceKey.
+func (v *VerifC11TraceKey) Fields() (nonRoot []string, rootOnly []string) {
+	return v.k.fields, v.k.rootOnlyFields
+}
+
+// VerifC11SetDynsampler sets the (unexported) dynsampler of a DynamicSampler before Start, the
+// same way SamplerFactory.createSampler does. (The other dynsampler-backed samplers hold concrete
+// dynsampler types and cannot take a test double.)
+func VerifC11SetDynsampler(s *DynamicSampler, d dynsampler.Sampler) { s.dynsampler = d }
